@@ -254,6 +254,9 @@ int main(int argc, char **argv)
     fams.push_back(specFamily("r-t", [] { return ms::familyR("r-t", true); }));
     fams.push_back(specFamily("i-q", [] { return ms::familyI("i-q", false); }));
     fams.push_back(specFamily("i-t", [] { return ms::familyI("i-t", true); }));
+    // imported components at every position of every forest on <= 4 (quick) / 5 (thorough) components
+    fams.push_back(specFamily("ip-q", [] { return ms::familyIP("ip-q", 4); }));
+    fams.push_back(specFamily("ip-t", [] { return ms::familyIP("ip-t", 5); }));
     fams.push_back(specFamily("m", [] { return ms::familyM("m"); }));
     const size_t NP = positions().size(), NM = MENU.size(), NPP = plainPositions();
     fams.push_back({"text-1", [=] { return uint64_t(NP * NM); },
